@@ -144,6 +144,45 @@ def reused_object(j, rng):
     return None
 
 
+ENCODINGS = ["utf-8", "latin-1", "utf-16-le", "utf-16", "utf-32-be", "cp1252", "ascii"]
+
+
+def other_encodings(ctx, hist):
+    """pack(options) / unpack_ldap_message(reader, options) with options whose FOUR string encodings (message fields, credentials, controls,
+    filters) are chosen independently from a set of codecs: whenever the message can be encoded at all, it comes back unchanged.  The Lean
+    model fixes UTF-8 (what a session uses); this stream is implementation-only and is what ties the other codecs"""
+    rng = ctx.rng
+    out = []
+    for _ in range(ctx.scale(1500, 40000)):
+        j = gen.g_msg(rng, depth=rng.choice([1, 2, 3]))
+        encs = [rng.choice(ENCODINGS) for _ in range(4)]
+        o = M.PackingOptions(string_encoding=encs[0])
+        o.authentication.string_encoding, o.control.string_encoding, o.filter.string_encoding = encs[1:]
+        try:
+            data = bytes(C.msg_from_json(j).pack(o))
+        except UnicodeEncodeError:
+            hist["other-encodings:not-encodable"] += 1
+            continue
+        except BaseException as e:  # noqa: BLE001
+            out.append({"key": None, "what": f"packing with string encodings {encs} raised {type(e).__name__}", "msg": j, "encodings": encs})
+            continue
+        hist["other-encodings:round-trips"] += 1
+        w = _decoded_equals(data, j, o)
+        if w is None:
+            try:
+                again = bytes(M.unpack_ldap_message(ASN1Reader(data), o).pack(o))
+                if again != data:
+                    w = "re-encoding the decoded message gives different bytes"
+            except BaseException as e:  # noqa: BLE001
+                w = f"re-encoding raised {type(e).__name__}"
+        if w:
+            out.append({"key": None, "what": w + f" (options with string encodings message/credential/control/filter = {encs})", "msg": j, "hex": data.hex(),
+                        "encodings": encs})
+            if len(out) >= 5:
+                break
+    return out
+
+
 def long_lived_options(ctx, hist):
     """the same round trip through ONE options object that lives as long as a session does: messages are decoded before the custom control,
     filter and credential types are added to its choice lists, and messages using those types afterwards"""
@@ -246,6 +285,7 @@ def run(ctx):
         if len(violations) > 20:
             break
     violations += long_lived_options(ctx, hist)
+    violations += other_encodings(ctx, hist)
     sample_n = ctx.scale(3000, 30000)
     sub = msgs[:sample_n]
     encs = []
@@ -267,7 +307,8 @@ def run(ctx):
                 "octets, None vs empty for every optional, 0-3 controls of the 4 library kinds, filters to depth 6 with fan-out 0-8; distinct = "
                 "distinct (kind, control kinds, filter shape); each is packed, unpacked with trailing bytes, compared field by field and re-packed; "
                 "a sample is replayed on the Lean model (enc and dec); the first messages are also packed with bytearray / shared bytearray / memoryview "
-                "octet fields (argument unchanged, same bytes twice) and as ONE object packed, edited in place through its lists and packed again",
+                "octet fields (argument unchanged, same bytes twice) and as ONE object packed, edited in place through its lists and packed again; further messages are round-tripped with options whose four "
+                "string encodings are drawn independently from utf-8 / latin-1 / utf-16(-le) / utf-32-be / cp1252 / ascii (implementation only)",
         "samples": samples,
         "histogram": dict(sorted(hist.items())),
         "requests": len(reqs),
